@@ -56,6 +56,13 @@ Items ==
     [b |-> EncV9Hdr(2, H9) \o EncSet(300, Body8) \o EncV9TmplSet(<<T(257, FA)>>, <<>>),
                                                                               toks |-> <<V(9), Data("v9", 300), Def("v9", "data", T(257, FA))>>],
     [b |-> SubSeq(EncV9Hdr(1, H9) \o EncV9TmplSet(<<T(257, FA)>>, <<>>), 1, 30), toks |-> <<V(9), Stop(9)>>],     \* template record cut
+    \* a template flowset whose length ends inside its second record: only the complete record counts
+    [b |-> EncV9Hdr(1, H9) \o EncSet(0, EncV9TmplRec(T(257, FB)) \o SubSeq(EncV9TmplRec(T(256, FC)), 1, 8)),
+                                                                              toks |-> <<V(9), Def("v9", "data", T(257, FB))>>],
+    \* data flowsets that are nothing but their header, for an id nobody defined
+    [b |-> EncV9Hdr(1, H9) \o EncSet(300, <<>>),                               toks |-> <<V(9), Data("v9", 300)>>],
+    [b |-> EncIpfixMsg(HX, <<EncSet(300, <<>>), EncIpfixTmplSet(<<T(257, FA)>>, <<>>)>>),
+                                                                              toks |-> <<V(10), Data("ipfix", 300), Def("ipfix", "data", T(257, FA))>>],
     [b |-> EncIpfixMsg(HX, <<EncIpfixTmplSet(<<T(256, FA)>>, <<>>)>>),         toks |-> <<V(10), Def("ipfix", "data", T(256, FA))>>],
     [b |-> EncIpfixMsg(HX, <<EncIpfixTmplSet(<<T(256, FB)>>, <<>>)>>),         toks |-> <<V(10), Def("ipfix", "data", T(256, FB))>>],
     [b |-> EncIpfixMsg(HX, <<EncIpfixTmplSet(<<T(257, FA), T(256, FB)>>, <<>>)>>),
